@@ -262,6 +262,8 @@ func (p lpath) store() string {
 
 func (g *c07gen) source(top *lty, space string) string {
 	var b strings.Builder
+	g.c.attrConsts = map[int]bool{}
+	defer func() { g.c.attrConsts = nil }()
 	if g.f16 {
 		b.WriteString("enable f16;\n")
 	}
@@ -294,6 +296,7 @@ func (g *c07gen) source(top *lty, space string) string {
 		b.WriteString("  " + p.store() + "\n")
 	}
 	b.WriteString("}\n")
+	b.WriteString(g.c.attrPrelude())
 	return b.String()
 }
 
